@@ -1103,6 +1103,9 @@ func TestE2Files(t *testing.T) {
 				}
 				volatile := sv == "strict" || (mode == "strict" && sv == "") || call.Volatile
 				kept := e.Param != "" && (bound[e.CallPath+"|"+e.Param] || bound[e.CallPath+"|*"])
+				for _, p := range e.AlsoIn {
+					kept = kept || bound[e.CallPath+"|"+p]
+				}
 				if volatile && !kept {
 					mustGo++
 					if !gone {
